@@ -1443,7 +1443,7 @@ class TrigInfo:
             # Store HASS Context for this Task
             Function.store_hass_context(hass_context)
 
-            if task_unique and task_unique_func:
+            if task_unique is not None and task_unique_func:
                 # the check above and this claim are not atomic (several triggers can fire at the same
                 # instant): the claim applies the kill_me rule itself, so the later run is the one that ends
                 await task_unique_func(task_unique, kill_me=kill_me)
